@@ -37,7 +37,7 @@ ASSUMPTIONS = [
 ]
 REPORT_COUNTERS = ["signature_sets", "calls", "unique_applicable_ran", "params_identity_checked", "defaults_identity_checked",
                    "results_identity_checked", "exceptions_identity_checked", "none_applicable_checked", "self_checked",
-                   "entry_shapes", "zero_positional_calls", "kw_with_omitted_optional"]
+                   "entry_shapes", "zero_positional_calls", "kw_with_omitted_optional", "nested_delegations_checked"]
 
 TYPES = ["int", "str", "float"]
 
@@ -260,6 +260,49 @@ def check_case(spec, res):
                         res.violation("inapplicable-method-ran", [npos_given == 0], spec,
                                       observed={"call_shape": shape, "entered": [e[0] for e in vf.entries]},
                                       acceptable="no method body runs", finding=None)
+    _delegation_passthrough(spec, res, env, mk, Box, made)
+    forget(files)
+
+
+def _delegation_passthrough(spec, res, env, mk, Box, made):
+    """recurse / call_next issued from inside a method are calls too: the objects written at the call site - also
+    when one such call is nested in the argument list of another - must arrive unchanged and in place."""
+    vf = VF()
+    vf.keep_locals = True
+    selfp = "self, " if spec["is_method"] else ""
+    ns = {"__box": Box(), "__vf": vf}
+    from ..methods import load_source
+    src = (f"def f({selfp}a: list):\n    __vf.enter(0, locals())\n    return recurse(a[0], recurse(a[1], a[2]))\n")
+    src2 = (f"def f({selfp}a: int, b: object):\n    __vf.enter(1, locals())\n    return __box.ret(1)\n")
+    src3 = (f"def f({selfp}a: tuple):\n    __vf.enter(2, locals())\n    return call_next(a) if len(a) > 5 else recurse(a[0], b=recurse(a[1], a[2])) if False else recurse(a[1], recurse(a[0], a[2]))\n")
+    o = Ovld()
+    files = []
+    for s_ in (src, src2, src3):
+        nsx, f = load_source(s_, ns, tag="c03d", shared=True)
+        files.append(f)
+        o.register(nsx["f"])
+    holder = type("Holder", (), {"f": o})() if spec["is_method"] else None
+    target = holder.f if holder is not None else o
+    for container in (list, tuple):
+        x, y, z = mk["int"](), mk["int"](), mk["str"]()
+        arg = container([x, y, z])
+        vf.clear()
+        made.clear()
+        out = outcome(lambda: target(arg), vf)
+        res.ev()
+        res.count("nested_delegations_checked")
+        ent = vf.entries
+        first, second = (x, y) if container is list else (y, x)
+        ok = (out[0] == "ran" and len(ent) == 3 and ent[1][0] == 1 and ent[2][0] == 1
+              and ent[1][1]["a"] is second and ent[1][1]["b"] is z
+              and ent[2][1]["a"] is first and isinstance(ent[2][1]["b"], Ret))
+        if ok and holder is not None:
+            ok = all(e[1].get("self") is holder for e in ent)
+        if not ok:
+            res.violation("delegated-arguments-not-passed-through", [container.__name__, out[0]], spec,
+                          observed={"outcome": [str(v) for v in out[:2]],
+                                    "entries": [[e[0], {k: repr(v)[:30] for k, v in e[1].items()}] for e in ent][:4]},
+                          acceptable="inner call receives (a[1], a[2]), outer call receives (a[0], inner result), by identity")
     forget(files)
 
 
